@@ -14,6 +14,7 @@ RULE = (
     "A pair is non-trivial when both upwards and downwards are non-empty; distinct_nontrivial counts distinct "
     "(shape, start, end) triples with that property (enumerated: by construction; generated: hashed per case)."
     ' Also: keyword calls, unreprable nodes, deep V from the root, python -O/-OO child interpreters.'
+    ' Rounds 12-14: value-equal deep forks below trunks, chains of 70000+ levels, links as endpoints across trees.'
 )
 ASSUMPTIONS = ["ancestor chains are recomputed from .parent only; all comparisons by identity"]
 
